@@ -138,6 +138,20 @@ CHECKS = {
          "not covered by the statement and not generated.",
     technique="TLA+ spec + TLC; TLC-generated call lists replayed (batch vs one-by-one) into the real daemon; TLC trace validation (monitor)",
     ref="6/C11"),
+ "C10": dict(
+    category="model_checking",
+    text="Streams.tla gives the exact meaning of every server-side stream step (open, fetch with re-association after a reconnect, close, "
+         "disconnect with or without linger, housekeeping with lifetime and linger expiry) as operators over the stream table, and a model that "
+         "TLC checks for Prefix / ForgottenStaysGone / NoExpiredAfterHousekeeping; Gen_Streams.tla generates scripts of two proxies opening "
+         "streams over sources of every shape (empty, long, raising midway or at the end), fetching, closing, disconnecting, reconnecting, with "
+         "housekeeping runs and clock advances; a real daemon (thread server with explicit housekeeping, multiplex server with its implicit "
+         "housekeeping) and real stream iterators run them over the in-memory transport with a virtual clock, for all lifetime / linger / "
+         "streaming settings; TLC replays each recorded run through the same operators (Trace_Streams.tla) and requires every fetch outcome, "
+         "every item and the final table size to be the model's.",
+    note="Trusted: virtual clock installed as Pyro5.server.time, the harness's stream sources (items encode stream and position), in-memory "
+         "transport, TLC. Up to 3 concurrent streams from 2 proxies; scripts of length 3 exhaustively sampled plus random walks of length 12.",
+    technique="TLA+ spec + TLC; TLC-generated scripts replayed into the real daemon with a virtual clock; TLC trace validation (replica monitor)",
+    ref="6/C10"),
 }
 NOT_YET = {}
 ALL = ["C%02d" % i for i in range(1, 21)]
